@@ -275,7 +275,7 @@ static std::string render_mps(const LP &m, long style) {
 	std::string s = "NAME foreign\n";
 	if (m.objsense < 0) s += style % 2 ? "OBJSENSE\n    MAX\n" : "OBJSENSE\n MAXIMIZE\n"; else if (style % 3 == 1) s += "OBJSENSE\n    MIN\n";   // without the section an MPS file denotes a minimisation
 	s += "ROWS\n N obj\n";
-	bool extra_free = style % 11 == 5, ints = style % 4 == 1; bool in_int = false;
+	bool ints = style % 4 == 1; bool in_int = false; bool extra_free = style % 11 == 5 || (!ints && style % 13 == 7 && m.cols.size() >= 2 && (style / 13) % 2 == 0);
 	if (extra_free) s += " N zfree\n";   // a second free row: columns that only appear there are dropped by the reader
 	// a ranged row lo <= a.x <= hi has five spellings in MPS: G lo with range w, L hi with range w or -w, E lo with +w, E hi with -w
 	auto rform = [&](size_t i) { return m.rows[i].range == 0 ? 0 : (int)((style / 3 + (long)i) % 5); };
@@ -285,9 +285,10 @@ static std::string render_mps(const LP &m, long style) {
 	// an SOS set around a run of columns (files in the wild carry them; the solver ignores the sets, the reader has to digest them)
 	bool sos = !ints && style % 13 == 7 && m.cols.size() >= 2; size_t sos_a = sos ? (size_t)(style / 13) % (m.cols.size() - 1) : 0, sos_b = sos ? std::min(m.cols.size(), sos_a + 2 + (size_t)(style / 91) % 3) : 0;
 	std::string sos_tag = std::string(style % 2 ? " S1" : " S2") + " SOS 'MARKER' ";
+	bool sos_dropped = sos && (style / 13) % 2 == 0;   // a member of the SOS set that the reader drops (it only occurs in a free row that is not the objective)
 	for (size_t j = 0; j < m.cols.size(); j++) { const MCol &c = m.cols[j]; bool any = false;
 		if (sos && j == sos_b) s += sos_tag + "'SOSEND'\n";
-		if (sos && j == sos_a) s += sos_tag + "'SOSORG'\n";
+		if (sos && j == sos_a) { s += sos_tag + "'SOSORG'\n"; if (sos_dropped) s += " zdrop2 zfree 1\n"; }
 		bool want_int = ints && (j + (size_t)(style / 4)) % 3 == 0;
 		if (want_int != in_int) { s += std::string(" MARKER MARKER ") + (want_int ? "'INTORG'" : "'INTEND'") + "\n"; in_int = want_int; }
 		if (extra_free && j + 1 == m.cols.size()) for (auto &r : m.rows) { auto it = r.coef.find((int)j); if (it != r.coef.end() && it->second != 0) { s += " " + c.name + " " + r.name + " 1\n"; break; } }   // the same entry twice
